@@ -602,6 +602,7 @@ def run(ctx):
     import props.C04 as c04
     c04.check_export_conversions(ctx, F)   # From<AnsCoder> for Vec is the shared export
     c04.check_refill_threshold(ctx, F)     # import loops establish the invariant the decoder's refill test maintains
+    c04.check_import_read_errors(ctx, F)   # a failed read while the head is assembled ends the import with an error
     c04.check_top_word_nonzero(ctx, F, anchors.ans_import_loops(F)[1], 'stream::stack::AnsCoder::from_compressed', 'into_compressed')   # export/import identity
     if ctx.tier == 'thorough':
         from vlib import witness
